@@ -1,7 +1,9 @@
 //! vcore: shared machinery for the runtime-monitoring checks of serde-saphyr.
+pub mod budgetmodel;
 pub mod errs;
 pub mod hooks;
 pub mod obs;
+pub mod rdr;
 pub mod reftree;
 pub mod rng;
 pub mod targets;
